@@ -49,43 +49,43 @@ class Model:
     itfs: Tuple[Itf, ...]
     ports: Tuple[Prt, ...]
     system: bool = False
-    comp: str = 'Comp'
+    comp: str = 'VfComp'
 
 
-I_A = Itf('IA', (Ev('e0', 'in'), Ev('o0', 'out')))
-I_B = Itf('IB', (Ev('e1', 'in', 'Res', (('a', 'in', 'TInt'), ('b', 'out', 'TBlob'), ('c', 'inout', 'TInt'))),
+I_A = Itf('VfIA', (Ev('e0', 'in'), Ev('o0', 'out')))
+I_B = Itf('VfIB', (Ev('e1', 'in', 'Res', (('a', 'in', 'TInt'), ('b', 'out', 'TBlob'), ('c', 'inout', 'TInt'))),
                  Ev('e2', 'in', 'void', (('s', 'in', 'TStr'),)),
                  Ev('o1', 'out', 'void', (('a', 'in', 'TInt'), ('b', 'in', 'TBlob'))),
                  Ev('o2', 'out')), has_res=True)
-I_C = Itf('IC', (Ev('Claim', 'in', 'Res'), Ev('Release', 'in'),
+I_C = Itf('VfIC', (Ev('Claim', 'in', 'Res'), Ev('Release', 'in'),
                  Ev('Work', 'in', 'Res', (('a', 'in', 'TInt'),)),
                  Ev('Done', 'out'), Ev('Fail', 'out', 'void', (('x', 'in', 'TBlob'),))), has_res=True)
 # claim / release under other names and with formals; an unrelated event is literally called Release
-I_C2 = Itf('IC2', (Ev('Acquire', 'in', 'Res', (('who', 'in', 'TInt'), ('tok', 'out', 'TInt'))),
+I_C2 = Itf('VfIC2', (Ev('Acquire', 'in', 'Res', (('who', 'in', 'TInt'), ('tok', 'out', 'TInt'))),
                    Ev('GiveBack', 'in', 'void', (('who', 'in', 'TInt'),)),
                    Ev('Release', 'in', 'void', (('port', 'in', 'TInt'),)),
                    Ev('identifier', 'out', 'void', (('port', 'in', 'TInt'),))), has_res=True)
-I_D = Itf('ID', ())
-I_E = Itf('IE', (Ev('only_in', 'in', 'Res'),), has_res=True)
-I_F = Itf('IF', (Ev('only_out', 'out', 'void', (('v', 'in', 'TStr'),)),))
+I_D = Itf('VfID', ())
+I_E = Itf('VfIE', (Ev('only_in', 'in', 'Res'),), has_res=True)
+I_F = Itf('VfIF', (Ev('only_out', 'out', 'void', (('v', 'in', 'TStr'),)),))
 
 MODELS: List[Model] = [
-    Model('one-provides', ('N',), (I_A,), (Prt('p', 'provides', 'IA'),)),
-    Model('prov+req', ('N', 'M'), (I_B,), (Prt('api', 'provides', 'IB'), Prt('dev', 'requires', 'IB'))),
-    Model('global-ns', (), (I_A, I_B), (Prt('p', 'provides', 'IA'), Prt('r', 'requires', 'IB'))),
+    Model('one-provides', ('N',), (I_A,), (Prt('p', 'provides', 'VfIA'),)),
+    Model('prov+req', ('N', 'M'), (I_B,), (Prt('api', 'provides', 'VfIB'), Prt('dev', 'requires', 'VfIB'))),
+    Model('global-ns', (), (I_A, I_B), (Prt('p', 'provides', 'VfIA'), Prt('r', 'requires', 'VfIB'))),
     Model('two-ports-one-itf', ('N',), (I_B, I_A),
-          (Prt('first', 'provides', 'IB'), Prt('second', 'provides', 'IB'), Prt('r', 'requires', 'IA'),
-           Prt('r2', 'requires', 'IA'))),
+          (Prt('first', 'provides', 'VfIB'), Prt('second', 'provides', 'VfIB'), Prt('r', 'requires', 'VfIA'),
+           Prt('r2', 'requires', 'VfIA'))),
     Model('injected', ('N',), (I_A, I_E),
-          (Prt('p', 'provides', 'IA'), Prt('cfg', 'requires', 'IE', True), Prt('r', 'requires', 'IE'))),
+          (Prt('p', 'provides', 'VfIA'), Prt('cfg', 'requires', 'VfIE', True), Prt('r', 'requires', 'VfIE'))),
     Model('no-ports', ('N',), (I_A,), ()),
-    Model('only-requires', ('N',), (I_F, I_D), (Prt('sink', 'requires', 'IF'), Prt('void_', 'requires', 'ID'))),
-    Model('system', ('N',), (I_A, I_B), (Prt('p', 'provides', 'IB'), Prt('r', 'requires', 'IA')), system=True),
+    Model('only-requires', ('N',), (I_F, I_D), (Prt('sink', 'requires', 'VfIF'), Prt('void_', 'requires', 'VfID'))),
+    Model('system', ('N',), (I_A, I_B), (Prt('p', 'provides', 'VfIB'), Prt('r', 'requires', 'VfIA')), system=True),
     Model('mc-first', ('N',), (I_C, I_A),
-          (Prt('api', 'provides', 'IC'), Prt('other', 'provides', 'IA'), Prt('r', 'requires', 'IA'))),
+          (Prt('api', 'provides', 'VfIC'), Prt('other', 'provides', 'VfIA'), Prt('r', 'requires', 'VfIA'))),
     Model('mc-last', ('N', 'M'), (I_A, I_C2),
-          (Prt('other', 'provides', 'IA'), Prt('ctl', 'provides', 'IC2'), Prt('r', 'requires', 'IA'))),
-    Model('mc-only', (), (I_C,), (Prt('Api', 'provides', 'IC'),)),
+          (Prt('other', 'provides', 'VfIA'), Prt('ctl', 'provides', 'VfIC2'), Prt('r', 'requires', 'VfIA'))),
+    Model('mc-only', (), (I_C,), (Prt('Api', 'provides', 'VfIC'),)),
 ]
 MODEL_BY_LABEL = {m.label: i for i, m in enumerate(MODELS)}
 
@@ -107,13 +107,13 @@ def model_doc(m: Model) -> dict:
         inner.append(dg.interface([itf.name], events, types))
     prts = [dg.port(p.name, [p.itf], p.direction, p.injected) for p in m.ports]
     if m.system:
-        inner.append(dg.component(['Inner'], prts))
-        inner.append(dg.system([m.comp], prts, [dg.instance('inner', ['Inner'])],
+        inner.append(dg.component(['VfInner'], prts))
+        inner.append(dg.system([m.comp], prts, [dg.instance('inner', ['VfInner'])],
                                [dg.binding(dg.endpoint(p.name), dg.endpoint(p.name, 'inner'))
                                 for p in m.ports]))
     else:
         inner.append(dg.component([m.comp], prts))
-    inner.append(dg.foreign(['Frgn'], []))
+    inner.append(dg.foreign(['VfFrgn'], []))
     for name in reversed(m.ns):
         inner = [dg.namespace([name], inner)]
     return dg.root(elements + inner)
